@@ -619,7 +619,28 @@ def invertible(draw, G, S, closed_only=False):
         forms += ['spd_toeplitz']
     if S['t'] in ('tuple', 'list', 'dict'):
         forms += ['blockdiag', 'blockdiag']
+    if all(len(s) >= 1 for s in shapes) and not closed_only and cg_ok:
+        forms += ['spd_composite']
     form = draw(st.sampled_from(forms))
+    if form == 'spd_composite':
+        # an SPD *composite* (positive diagonal factors, identities, positive scalars: they commute), so that the
+        # lazy inverse has to reduce its operand when it is created
+        def posdiag():
+            r = g_diag(draw, G, S, zeros=False)
+            r['vals'] = (np.abs(np.asarray(r['vals'], dtype=float)) + 0.5).tolist()
+            return r
+        parts = [posdiag()]
+        for _ in range(draw(st.integers(1, 3))):
+            parts.append(draw(st.sampled_from(['id', 'hom', 'diag'])))
+        # known finding D13: with 64-bit mode on, a weakly typed float64 scalar factor inside the operand of a lazy
+        # inverse on float32 data breaks lineax' solve; excluded here by construction (strongly typed float32 scalars),
+        # exhibited by C06's dedicated case
+        sty = 'jax_0d' if G.mode == 'x64' else 'py_float'
+        parts = [p_ if isinstance(p_, dict) else ({'k': 'id', 'in': S} if p_ == 'id' else
+                 {'k': 'hom', 'in': S, 'value': draw(st.sampled_from([0.5, 2.0, 3.0])), 'ty': sty} if p_ == 'hom' else posdiag())
+                 for p_ in parts]
+        parts = list(draw(st.permutations(parts)))
+        return {'k': 'compose', 'ops': parts, 'via': draw(st.sampled_from(['list', 'matmul'])), 'tree': _ptree(draw, len(parts))}, False
     if form == 'id':
         return {'k': 'id', 'in': S}, True
     if form == 'hom':
